@@ -48,6 +48,9 @@ PROPS = [
  ("fix: an ingest session skipped segments of assets with fractional-millisecond segment ends", ["C16"]),
  ("fix: generated subtitle cues ended before they started", ["C12"]),
  ("fix: the 425 answer to a request made before availabilityStartTime", ["C04", "C02"]),
+ ("fix: a patch request whose regenerated MPD is an error text", ["C08", "C11"]),
+ ("fix: a stop time before the start time combined with periods crashed", ["C08", "C06"]),
+ ("fix: creating an ingest session with a malformed livesim URL", ["C08", "C16"]),
 ]
 
 FINDINGS = json.load(open('/verif/known_findings_manual.json'))['findings']
